@@ -251,6 +251,37 @@ func decFromNative(d decimal128.Decimal) *DecV {
 
 func decFinite(v *Term) *DecV { return &DecV{Cls: DFinite, Val: v} }
 
+func expOf(e int) *int { return &e }
+
+// decFromNativeExact: like decFromNative for a value the real library built
+// from the program's own input (so its encoding is the real one).
+func decFromNativeExact(d decimal128.Decimal) *DecV {
+	v := decFromNative(d)
+	if v.Cls == DFinite {
+		_, _, _, e := d.Decompose(nil)
+		v.Exp = expOf(int(e))
+	}
+	return v
+}
+
+func numTextExp(nt *NumText) *int {
+	switch nt.Form {
+	case NFInt, NFExp:
+		return expOf(0)
+	case NFDot:
+		if nt.Scale > 0 {
+			return expOf(-nt.Scale)
+		}
+		return expOf(-1)
+	}
+	return nil
+}
+
+func withExp(d *DecV, e *int) *DecV {
+	d.Exp = e
+	return d
+}
+
 func isZeroT(v *Term) *Term { return Eq(v, RealOfInt(0)) }
 
 // decSign returns -1/0/+1 class of a DecV as decided on this path.
@@ -1576,14 +1607,26 @@ func registerStubs(w *World) {
 			if s.Num.Form == NFBad {
 				return TupleV{decFinite(RealOfInt(0)), in.nativeErr(strconv.ErrSyntax)}
 			}
-			return TupleV{decFinite(numTextValue(s.Num)), NilIface}
+			return TupleV{withExp(decFinite(numTextValue(s.Num)), numTextExp(s.Num)), NilIface}
 		}
 		c, ok := in.concStr(s)
 		if !ok {
 			in.unsupported("decimal128.Parse of symbolic bytes")
 		}
 		d, err := decimal128.Parse(c)
-		return TupleV{decFromNative(d), in.nativeErr(err)}
+		return TupleV{decFromNativeExact(d), in.nativeErr(err)}
+	}
+	S[D+"New"] = func(in *Interp, fn *ssa.Function, a []Value) Value {
+		// sig * 10^exp with a concrete exponent (the encoding's scale is not part of the abstraction)
+		e := cint(in, a[1])
+		if e > 40 || e < -40 {
+			in.unsupported("decimal128.New with a large exponent")
+		}
+		p := new(big.Rat).SetInt(new(big.Int).Exp(big.NewInt(10), big.NewInt(int64(abs(e))), nil))
+		if e < 0 {
+			p.Inv(p)
+		}
+		return withExp(decFinite(Mul(ToReal(a[0].(*Term)), RatC(p))), expOf(e))
 	}
 	S["(*github.com/woodsbury/decimal128.Decimal).UnmarshalJSON"] = func(in *Interp, fn *ssa.Function, a []Value) Value {
 		p := a[0].(PtrV)
@@ -1591,7 +1634,7 @@ func registerStubs(w *World) {
 		if sl.Arr != nil && sl.Arr.Abs != nil {
 			s := sl.Arr.Abs
 			if s.Num != nil && s.Num.Form != NFBad {
-				in.store(p.R, decFinite(numTextValue(s.Num)))
+				in.store(p.R, withExp(decFinite(numTextValue(s.Num)), numTextExp(s.Num)))
 				return NilIface
 			}
 			in.unsupported("Decimal.UnmarshalJSON of abstract text")
@@ -1606,26 +1649,45 @@ func registerStubs(w *World) {
 			if string(data) == "null" || len(data) == 0 {
 				return NilIface // receiver left unchanged
 			}
-			in.store(p.R, decFromNative(d))
+			in.store(p.R, decFromNativeExact(d))
 		}
 		return in.nativeErr(err)
 	}
 	fromInt := func(in *Interp, fn *ssa.Function, a []Value) Value {
-		return decFinite(ToReal(a[0].(*Term)))
+		return withExp(decFinite(ToReal(a[0].(*Term))), expOf(0))
 	}
 	S[D+"FromInt32"], S[D+"FromInt64"], S[D+"FromUint32"], S[D+"FromUint64"] = fromInt, fromInt, fromInt, fromInt
 	fromFloat := func(in *Interp, fn *ssa.Function, a []Value) Value {
 		return in.floatToDec(a[0].(*FloatV))
 	}
 	S[D+"FromFloat32"], S[D+"FromFloat64"] = fromFloat, fromFloat
+	// exponent of an exact sum / product (harness bounds keep results within 34 digits)
+	expRule := func(r Value, x, y *DecV, mul bool) Value {
+		d, ok := r.(*DecV)
+		if !ok || d.Cls != DFinite || x.Exp == nil || y.Exp == nil {
+			return r
+		}
+		c := *d
+		if mul {
+			c.Exp = expOf(*x.Exp + *y.Exp)
+		} else if *x.Exp < *y.Exp {
+			c.Exp = expOf(*x.Exp)
+		} else {
+			c.Exp = expOf(*y.Exp)
+		}
+		return &c
+	}
 	S[DM+"Add"] = func(in *Interp, fn *ssa.Function, a []Value) Value {
-		return in.decAdd(in.toDec(a[0]), in.toDec(a[1]), false)
+		x, y := in.toDec(a[0]), in.toDec(a[1])
+		return expRule(in.decAdd(x, y, false), x, y, false)
 	}
 	S[DM+"Sub"] = func(in *Interp, fn *ssa.Function, a []Value) Value {
-		return in.decAdd(in.toDec(a[0]), in.toDec(a[1]), true)
+		x, y := in.toDec(a[0]), in.toDec(a[1])
+		return expRule(in.decAdd(x, y, true), x, y, false)
 	}
 	S[DM+"Mul"] = func(in *Interp, fn *ssa.Function, a []Value) Value {
-		return in.decMul(in.toDec(a[0]), in.toDec(a[1]))
+		x, y := in.toDec(a[0]), in.toDec(a[1])
+		return expRule(in.decMul(x, y), x, y, true)
 	}
 	S[DM+"Quo"] = func(in *Interp, fn *ssa.Function, a []Value) Value {
 		return in.decQuo(in.toDec(a[0]), in.toDec(a[1]))
@@ -1644,7 +1706,7 @@ func registerStubs(w *World) {
 		case DNegInf:
 			return &DecV{Cls: DPosInf}
 		}
-		return &DecV{Cls: DFinite, Val: Neg(d.Val), Lossy: d.Lossy, NegZ: !d.NegZ}
+		return &DecV{Cls: DFinite, Val: Neg(d.Val), Lossy: d.Lossy, NegZ: !d.NegZ, Exp: d.Exp}
 	}
 	S[D+"Abs"] = func(in *Interp, fn *ssa.Function, a []Value) Value {
 		d := in.toDec(a[0])
@@ -1654,7 +1716,7 @@ func registerStubs(w *World) {
 		case DPosInf, DNegInf:
 			return &DecV{Cls: DPosInf}
 		}
-		return &DecV{Cls: DFinite, Val: Ite(Lt(d.Val, RealOfInt(0)), Neg(d.Val), d.Val), Lossy: d.Lossy}
+		return &DecV{Cls: DFinite, Val: Ite(Lt(d.Val, RealOfInt(0)), Neg(d.Val), d.Val), Lossy: d.Lossy, Exp: d.Exp}
 	}
 	S[D+"Floor"] = func(in *Interp, fn *ssa.Function, a []Value) Value {
 		d := in.toDec(a[0])
@@ -2080,4 +2142,11 @@ func (in *Interp) jsonDecodeString(b []*Term) ([]*Term, bool) {
 		}
 	}
 	return out, true
+}
+
+func abs(x int) int {
+	if x < 0 {
+		return -x
+	}
+	return x
 }
